@@ -107,7 +107,7 @@ theorem deep_flat {N : Tok → Prop} (t : Tok) (hc : t.children = none) (h : N t
 
 theorem deepU_linkN (ext : IExt) (lx : LExt) : LinkN ext lx (Deep (UTok ext lx)) :=
   ⟨fun t hc h => deep_flat t hc (utok_other ext lx t (by rcases h with h | h <;> rw [h] <;> decide) (by rcases h with h | h <;> rw [h] <;> decide)),
-   fun t href hc hty ha hs => deep_flat t hc ⟨fun _ => ⟨href, ha, hs⟩, fun h => by rw [hty] at h; exact absurd h (by decide)⟩⟩
+   fun t href _ hc hty ha _ hs => deep_flat t hc ⟨fun _ => ⟨href, ha, hs⟩, fun h => by rw [hty] at h; exact absurd h (by decide)⟩⟩
 
 /-! ### the image rule -/
 
@@ -145,7 +145,7 @@ theorem imageInline_src (ext : IExt) (lx : LExt) (s : IState) (labelEnd maximum 
 /-- the tokens `pushImage` appends: a flushed text token (maybe) and the image token with the attributes and children it was given -/
 theorem pushImage_tokens (s : IState) (a : List (String × AttrVal)) (ch : Option (List Tok)) (co : String) (md : List (String × String)) :
     ∃ (flush : List Tok) (t : Tok), (s.pushImage a ch co md).tokens = s.tokens ++ flush ++ [t] ∧ t.type = "image" ∧ t.attrs = a
-      ∧ t.children = ch ∧ (∀ x ∈ flush, x.type = "text" ∧ x.children = none) := by
+      ∧ t.children = ch ∧ t.metaD = md ∧ (∀ x ∈ flush, x.type = "text" ∧ x.children = none) := by
   unfold IState.pushImage IState.pushA
   simp only
   obtain ⟨lvl, lvl', p, h⟩ := push_adds s "image" "img" 0 co "" ""
@@ -153,11 +153,12 @@ theorem pushImage_tokens (s : IState) (a : List (String × AttrVal)) (ch : Optio
   rw [modify_last]
   refine ⟨if s.pending.isEmpty = true then [] else [mkInlineTok "text" "" 0 lvl' p "" ""],
     (match (mkInlineTok "image" "img" 0 lvl co "" "").setAttrs' a with
-      | .mk ty tg n a m l _ co mu i _ b h => Tok.mk ty tg n a m l ch co mu i md b h), ?_, ?_, ?_, ?_, ?_⟩
+      | .mk ty tg n a m l _ co mu i _ b h => Tok.mk ty tg n a m l ch co mu i md b h), ?_, ?_, ?_, ?_, ?_, ?_⟩
   · have hm := modify_last (fun t => match t with
       | .mk ty tg n a m l _ co mu i _ b h => Tok.mk ty tg n a m l ch co mu i md b h) ((mkInlineTok "image" "img" 0 lvl co "" "").setAttrs' a)
       (s.tokens ++ if s.pending.isEmpty = true then [] else [mkInlineTok "text" "" 0 lvl' p "" ""])
     exact hm
+  · rfl
   · rfl
   · rfl
   · rfl
@@ -170,12 +171,13 @@ theorem pushImage_tokens (s : IState) (a : List (String × AttrVal)) (ch : Optio
     first attribute is a `src` that arose legitimately and whose children — the nested parse of the description — all satisfy it -/
 structure ImageN (ext : IExt) (lx : LExt) (D : Tok → Prop) : Prop where
   text : ∀ t, t.children = none → t.type = "text" → D t
-  image : ∀ t src cs, t.type = "image" → t.attrs.head? = some ("src", .s (String.ofList src)) → LinkSrc ext lx src →
+  image : ∀ t src cs (label : List Char), t.type = "image" → t.attrs.head? = some ("src", .s (String.ofList src)) → LinkSrc ext lx src →
+    t.metaD = (if !label.isEmpty && lx.storeLabels then [("label", String.ofList label)] else []) →
     (t.children = none ∨ t.children = some cs) → (∀ c ∈ cs, D c) → D t
 
 theorem deepU_imageN (ext : IExt) (lx : LExt) : ImageN ext lx (Deep (UTok ext lx)) := by
   refine ⟨fun t hc hty => deep_flat t hc (utok_other ext lx t (by rw [hty]; decide) (by rw [hty]; decide)), ?_⟩
-  intro t src cs hty ha hsrc hch hcs
+  intro t src cs _ hty ha hsrc _ hch hcs
   refine ⟨⟨ltok_other _ _ _ (by rw [hty]; decide), fun _ => ⟨src, ha, hsrc⟩⟩, ?_⟩
   intro c hc
   have hd : descendants t = descOpt t.children := by cases t; rfl
@@ -198,7 +200,7 @@ theorem imageEmit_adds (ext : IExt) (lx : LExt) {D : Tok → Prop} (hI : ImageN 
     simp only [Except.ok.injEq] at h
     subst h
     have hts := hparse _ ts hp
-    obtain ⟨flush, t, ht, hty, hat, hch, hfl⟩ := pushImage_tokens s
+    obtain ⟨flush, t, ht, hty, hat, hch, hmd, hfl⟩ := pushImage_tokens s
       ([("src", AttrVal.s (String.ofList href)), ("alt", AttrVal.s "")] ++ if title.isEmpty = true then [] else [("title", AttrVal.s (String.ofList title))])
       (if ts.isEmpty = true then none else some ts) (String.ofList ((s.src.take labelEnd).drop labelStart))
       (if (!label.isEmpty && lx.storeLabels) = true then [("label", String.ofList label)] else [])
@@ -210,7 +212,7 @@ theorem imageEmit_adds (ext : IExt) (lx : LExt) {D : Tok → Prop} (hI : ImageN 
       exact hI.text x hxc hxt
     · simp only [List.mem_singleton] at hx
       subst hx
-      refine hI.image x href ts hty (by rw [hat]; rfl) hsrc ?_ hts
+      refine hI.image x href ts label hty (by rw [hat]; rfl) hsrc hmd ?_ hts
       rw [hch]
       split
       · exact .inl rfl
@@ -432,7 +434,7 @@ theorem deepU_leafN (ext : IExt) (lx : LExt) (newline escape backticks autolink 
     fun _ _ => o _ _ _ _ _ _ _ (by decide) (by decide), fun _ _ _ _ => o _ _ _ _ _ _ _ (by decide) (by decide),
     fun _ _ _ _ => o _ _ _ _ _ _ _ (by decide) (by decide)⟩
   intro _ lvl u hv
-  exact hL.linkOpen _ (ext.normLink u) rfl rfl rfl (.inr (.inl ⟨u, rfl, hv⟩))
+  exact hL.linkOpen _ (ext.normLink u) [] rfl rfl rfl rfl (.inr (.inl ⟨u, rfl, hv⟩))
 
 /-- every `link_open` and every `image`, at every depth of the inline parse, carries a destination that arose legitimately -/
 theorem image_sources (cls : QCls) (ext : IExt) (lx : LExt)
